@@ -5,7 +5,7 @@ No hypercorn imports: everything here is the *specification* of what the client 
 """
 from __future__ import annotations
 
-from typing import Any, Dict, Iterator, List, Optional, Tuple
+from typing import Dict, Iterator, List, Optional, Tuple
 
 import h2.config
 import h2.connection
